@@ -4,58 +4,6 @@ import Jasm.Proofs.Master
 -/
 namespace Jasm
 
-/-- `n`-fold sequential composition of a denotation -/
-def powDen {α : Type} (d : Den α) : Nat → Den α
-  | 0 => fun σ _ => [(0, σ)]
-  | n+1 => fun σ w => (d σ w).flatMap fun (k, σ') => (powDen d n σ' (w.drop k)).map fun (k', σ'') => (k + k', σ'')
-
-theorem powDen_eq_seqDen {α : Type} (d : Den α) (n : Nat) : powDen d n = seqDen (List.replicate n d) := by
-  induction n with
-  | zero => funext σ w; simp [powDen, seqDen]
-  | succ n ih => funext σ w; simp [powDen, seqDen, List.replicate_succ, ih]
-
-/-- `times {lo,hi}` = between `lo` and `hi` consecutive repetitions, each consuming what one
-occurrence consumes -/
-theorem mem_iterDen {α : Type} (d : Den α) (lo hi : Nat) (σ : Sigma) (w : List α) (x : Nat × Sigma) :
-    x ∈ iterDen d lo hi σ w ↔ ∃ n, lo ≤ n ∧ n ≤ hi ∧ x ∈ powDen d n σ w := by
-  induction hi generalizing lo σ w x with
-  | zero =>
-    simp only [iterDen]
-    split
-    · rename_i h; subst h
-      constructor
-      · intro hx; exact ⟨0, by omega, by omega, by simpa [powDen] using hx⟩
-      · rintro ⟨n, _, hn, hx⟩
-        have : n = 0 := by omega
-        subst this; simpa [powDen] using hx
-    · rename_i h
-      simp only [List.not_mem_nil, false_iff]
-      rintro ⟨n, h1, h2, _⟩; omega
-  | succ m ih =>
-    simp only [iterDen, List.mem_append, List.mem_flatMap, List.mem_map]
-    constructor
-    · rintro (⟨⟨k, σ1⟩, hk, y, hy, rfl⟩ | h0)
-      · obtain ⟨n, h1, h2, hn⟩ := (ih _ _ _ _).mp hy
-        refine ⟨n + 1, by omega, by omega, ?_⟩
-        simp only [powDen, List.mem_flatMap, List.mem_map]
-        exact ⟨(k, σ1), hk, y, hn, rfl⟩
-      · split at h0
-        · rename_i h; subst h
-          exact ⟨0, by omega, by omega, by simpa [powDen] using h0⟩
-        · cases h0
-    · rintro ⟨n, h1, h2, hn⟩
-      cases n with
-      | zero =>
-        right
-        have : lo = 0 := by omega
-        subst this
-        simpa [powDen] using hn
-      | succ n =>
-        left
-        simp only [powDen, List.mem_flatMap, List.mem_map] at hn
-        obtain ⟨⟨k, σ1⟩, hk, y, hy, rfl⟩ := hn
-        exact ⟨(k, σ1), hk, y, (ih _ _ _ _).mpr ⟨n, by omega, by omega, hy⟩, rfl⟩
-
 /-- replace the repetition attribute of an item or group -/
 def Pat.setTimes : Pat → Times → Pat
   | .and l _, t => .and l t
